@@ -537,9 +537,7 @@ func (s *Server) attachClient(cl *Client, listener string) error {
 	if expire && !cl.IsTakenOver() {
 		cl.ClearInflights()
 		s.UnsubscribeClient(cl)
-		if current, ok := s.Clients.Get(cl.ID); ok && current == cl { // a newer connection may already hold this client id
-			s.Clients.Delete(cl.ID) // [MQTT-4.1.0-2] ![MQTT-3.1.2-23]
-		}
+		s.Clients.deleteIfCurrent(cl.ID, cl) // [MQTT-4.1.0-2] ![MQTT-3.1.2-23] a newer connection may already hold this client id
 	}
 
 	return err
@@ -1830,7 +1828,7 @@ func (s *Server) clearExpiredClients(dt int64) {
 			s.hooks.OnClientExpired(client)
 			client.ClearInflights()
 			s.UnsubscribeClient(client) // the session has ended; its subscriptions must not outlive it
-			s.Clients.Delete(id)        // [MQTT-4.1.0-2]
+			s.Clients.deleteIfCurrent(id, client) // [MQTT-4.1.0-2] a connection made since the snapshot above keeps its entry
 		}
 	}
 }
